@@ -74,6 +74,13 @@ class ZeroCalc:
         return np.zeros((len(atoms), 3))
 
 
+class Runaway(Exception):
+    """The driver keeps stepping although every request of the scenario has long been served."""
+
+
+RUNAWAY = 40
+
+
 def _mk(V, driver, intervals, log_interval):
     from ase import Atoms
     from ase.constraints import FixCom
@@ -98,6 +105,8 @@ def _mk(V, driver, intervals, log_interval):
 
     def counting_step():
         steps[0] += 1
+        if steps[0] > RUNAWAY:
+            raise Runaway(steps[0])  # far more steps than any call of these scenarios may request
         return orig_step()
 
     sim.step = counting_step
@@ -147,11 +156,17 @@ def sc_split(V, driver="mc", entry="run", nobs=1, amax=2):
     info = f"{driver}:{entry}:nobs={nobs}"
     # split run
     sim1, log1, st1, steps1 = _mk(V, driver, ivs, liv)
-    _drive(sim1, entry, a)
-    _drive(sim1, entry, b)
-    # single run
     sim2, log2, st2, steps2 = _mk(V, driver, ivs, liv)
-    _drive(sim2, entry, a + b)
+    try:
+        _drive(sim1, entry, a)
+        _drive(sim1, entry, b)
+        # single run
+        _drive(sim2, entry, a + b)
+    except Runaway as ex:
+        V.reach("zero-length-segment")
+        V.reach("both-segments-nonempty")
+        V.fail("exactly-the-requested-steps", info=info + f":more than {RUNAWAY} steps performed ({ex})")
+        return
     total = a + b
     exp = _expected(V, ivs, 2 * amax, total)
     V.reach("zero-length-segment" if (_true(V, a == 0) or _true(V, b == 0)) else "both-segments-nonempty")
@@ -183,7 +198,12 @@ def sc_entries(V, driver="mc", nobs=2, nmax=3):
         if driver == "fb" and entry == "srun":
             continue
         sim, log, st, steps = _mk(V, driver, ivs, 1)
-        _drive(sim, entry, n)
+        try:
+            _drive(sim, entry, n)
+        except Runaway as ex:
+            V.reach("done")
+            V.fail("exactly-the-requested-steps", info=f"{driver}:entries:{entry}:more than {RUNAWAY} steps performed ({ex})")
+            return
         logs[entry] = (list(log), steps[0], [o[1] for o in st.ops if o[0] == "write"])
     vals = list(logs.values())
     exp = _expected(V, ivs, nmax, n)
